@@ -21,7 +21,7 @@ ROWS = {
  "C17": ("every (base, single hardening) pair", "holds"),
  "C18": ("exact model WCRT == bound (strict periodic automata); far-window tightness of extrapolating curves", "holds"),
  "C19": ("analysis pairs on common special cases", "holds"),
- "C20": ("identical case streams in two build profiles", "holds after 6 repairs, except one debug-only hang (known)"),
+ "C20": ("identical case streams in two build profiles", "holds after 7 repairs"),
 }
 def sci(n):
     if n < 100000: return f"{n:,}".replace(",", " ")
